@@ -567,7 +567,7 @@ impl Property for C10 {
     }
     fn runs(&self, tier: &str) -> u64 {
         if tier == "thorough" {
-            200_000
+            800_000
         } else {
             12_000
         }
